@@ -12,7 +12,6 @@
 
   Theorems marked `_partial` carry the exact hypothesis that excludes a deviation of the
   current source, and a `_counterexample` theorem exhibits the deviation:
-    * unstable fd_filestat_get zeroes 64 bytes, the unstable filestat has 56;
     * positional I/O is emulated by lseek, which fails beyond the file system's largest offset.
 -/
 import W2c2Verif.Lemmas.WasiPositional
@@ -182,12 +181,15 @@ theorem whence_tables (abi : Abi) (v : Nat) : whenceOf abi v = specWhence abi v 
     | 2 => rfl
     | _ + 3 => rfl
 
-/-- fd_seek: an invalid whence ↦ EINVAL with no state change; otherwise, on a live descriptor
-    with a native fd, the result is POSIX `lseek(fd, (off_t) offset, whence)` with the
+/-- fd_seek on a live descriptor with a native fd: an invalid whence ↦ EINVAL with no state
+    change; otherwise the result is POSIX `lseek(fd, (off_t) offset, whence)` with the
     specification's whence and the guest's full 64-bit offset, the new offset stored as LE u64 at
-    the result pointer (`finishSeek`; translated errno on failure); fd_tell = `lseek(fd, 0, SEEK_CUR)`. -/
+    the result pointer (`finishSeek`; translated errno on failure); a dead descriptor ↦ EBADF
+    whatever the whence (as lseek(2)); fd_tell = `lseek(fd, 0, SEEK_CUR)`. -/
 theorem seek_tell_correct (abi : Abi) (s : St State) (n off wh res : Nat) :
-    (specWhence abi wh = none →
+    (getDesc Cfg.ofGen s n = none →
+      stepRO Cfg.ofGen posixHost abi s (.fdSeek n off wh res) = ret ⟨s.mem, []⟩ s.host BADF) ∧
+    (∀ d, getDesc Cfg.ofGen s n = some d → 0 ≤ d.fd → specWhence abi wh = none →
       stepRO Cfg.ofGen posixHost abi s (.fdSeek n off wh res) = ret ⟨s.mem, []⟩ s.host INVAL) ∧
     (∀ w d, specWhence abi wh = some w → getDesc Cfg.ofGen s n = some d → 0 ≤ d.fd →
       stepRO Cfg.ofGen posixHost abi s (.fdSeek n off wh res) =
@@ -196,13 +198,16 @@ theorem seek_tell_correct (abi : Abi) (s : St State) (n off wh res : Nat) :
       stepRO Cfg.ofGen posixHost abi s (.fdTell n res) =
         finishSeek ⟨s.mem, []⟩ res (s.host.lseek d.fd 0 .cur)) := by
   have hs : Cfg.ofGen.seekOffsetBits abi = 64 := by cases abi <;> rfl
-  have hwf : Cfg.ofGen.seekChecksWhenceFirst = true := rfl
-  refine ⟨?_, ?_, ?_⟩
-  · intro hw
-    simp only [stepRO, hwf, ↓reduceIte, whence_tables, hw]
+  have hwf : Cfg.ofGen.seekChecksWhenceFirst = false := rfl
+  refine ⟨?_, ?_, ?_, ?_⟩
+  · intro hd
+    simp only [stepRO, hwf, Bool.false_eq_true, ↓reduceIte, hd]
+  · intro d hd hfd hw
+    have hneg : ¬ d.fd < 0 := by omega
+    simp only [stepRO, hwf, Bool.false_eq_true, ↓reduceIte, hd, hneg, whence_tables, hw]
   · intro w d hw hd hfd
     have hneg : ¬ d.fd < 0 := by omega
-    simp only [stepRO, hwf, ↓reduceIte, whence_tables, hw, doSeek, hd, hneg, hs, posixHost]
+    simp only [stepRO, hwf, Bool.false_eq_true, ↓reduceIte, whence_tables, hw, doSeek, hd, hneg, hs, posixHost]
   · intro d hd hfd
     have hneg : ¬ d.fd < 0 := by omega
     simp only [stepRO, doSeek, hd, hneg, ↓reduceIte, posixHost]
@@ -245,11 +250,11 @@ example :
 /-! ## fd_filestat_get -/
 
 /-- the rows regenerated from `storePreview1Filestat` / `storeUnstableFilestat` put every field at
-    the offset and with the width the specification gives, in both ABIs; the preview1 area is
-    the 64 bytes of the preview1 struct -/
+    the offset and with the width the specification gives, and the zeroed area is exactly the
+    struct (64 bytes preview1, 56 bytes unstable), in both ABIs -/
 theorem filestat_layout (abi : Abi) :
     (filestatLayout abi).2.map (fun r => (r.1, r.2.1, r.2.2.1)) = (specFilestat abi).2 ∧
-    (filestatLayout .preview1).1 = (specFilestat .preview1).1 := by
+    (filestatLayout abi).1 = (specFilestat abi).1 := by
   cases abi <;> exact ⟨rfl, rfl⟩
 
 /-- every field is stored little-endian with its full C width (no truncation of the 64-bit
@@ -258,45 +263,58 @@ theorem filestat_field_widths (abi : Abi) :
     ∀ r ∈ (filestatLayout abi).2, r.2.2.2 = 8 * r.2.2.1 := by
   cases abi <;> decide
 
-/-- The unstable layout is 56 bytes, but `storeUnstableFilestat` first zeroes
-    `wasiUnstableFilestatSize = 64` bytes: the 8 guest bytes after the struct are overwritten. -/
-theorem filestat_unstable_overwrite_counterexample :
-    (filestatLayout .unstable).1 = 64 ∧ (specFilestat .unstable).1 = 56 ∧
-    (∀ (w : MW) (p : Nat) (st : Stat) (w' : MW), storeFilestat .unstable w p st = .val w' →
-       ∃ rest, w'.log = w.log ++ (p, List.replicate 64 0) :: rest) := by
-  refine ⟨rfl, rfl, ?_⟩
-  intro w p st w' h
+/-- what fd_filestat_get stores, in program order: `size` zero bytes at `p`, then each field
+    little-endian at `p + offset` … -/
+theorem filestat_stores (abi : Abi) (w w' : MW) (p : Nat) (st : Stat) (h : storeFilestat abi w p st = .val w') :
+    w'.log = w.log ++ (p, List.replicate (specFilestat abi).1 0) ::
+      (filestatLayout abi).2.map (fun r => (p + r.2.1, leBytes r.2.2.1 (filestatField st r.1 % 2 ^ r.2.2.2))) := by
+  have rows : ∀ (rows : List (String × Nat × Nat × Nat)) (a b : MW), storeRows a p st rows = .val b →
+      b.log = a.log ++ rows.map (fun r => (p + r.2.1, leBytes r.2.2.1 (filestatField st r.1 % 2 ^ r.2.2.2))) := by
+    intro rows
+    induction rows with
+    | nil => intro a b hab; simp [storeRows] at hab; simp [hab]
+    | cons r rs ih =>
+      intro a b hab
+      obtain ⟨nm, off, by_, bits⟩ := r
+      unfold storeRows at hab
+      cases ha : a.store (p + off) (leBytes by_ (filestatField st nm % 2 ^ bits)) with
+      | val a1 =>
+        rw [ha] at hab
+        simp only [Out.bind_val] at hab
+        rw [ih a1 b hab, (MW.store_val ha).2]
+        simp
+      | trap t => rw [ha] at hab; simp at hab
+      | ub k => rw [ha] at hab; simp at hab
+      | oof => rw [ha] at hab; simp at hab
   unfold storeFilestat at h
-  simp only [filestatLayout, Gen.Wasi.filestatUnstableSize] at h
-  cases hs : w.store p (List.replicate 64 0) with
+  have hsz : (filestatLayout abi).1 = (specFilestat abi).1 := (filestat_layout abi).2
+  cases hs : w.store p (List.replicate (filestatLayout abi).1 0) with
   | val w0 =>
-    rw [hs] at h
-    simp only [Out.bind_val] at h
-    obtain ⟨_, hl0⟩ := MW.store_val hs
-    have mono : ∀ (rows : List (String × Nat × Nat × Nat)) (a b : MW), storeRows a p st rows = .val b →
-        ∃ rest, b.log = a.log ++ rest := by
-      intro rows
-      induction rows with
-      | nil => intro a b hab; simp [storeRows] at hab; exact ⟨[], by simp [hab]⟩
-      | cons r rs ih =>
-        intro a b hab
-        obtain ⟨nm, off, by_, bits⟩ := r
-        unfold storeRows at hab
-        cases ha : a.store (p + off) (leBytes by_ (filestatField st nm % 2 ^ bits)) with
-        | val a1 =>
-          rw [ha] at hab
-          simp only [Out.bind_val] at hab
-          obtain ⟨rest, hr⟩ := ih a1 b hab
-          obtain ⟨_, hl1⟩ := MW.store_val ha
-          exact ⟨(p + off, leBytes by_ (filestatField st nm % 2 ^ bits)) :: rest, by rw [hr, hl1]; simp⟩
-        | trap t => rw [ha] at hab; simp at hab
-        | ub k => rw [ha] at hab; simp at hab
-        | oof => rw [ha] at hab; simp at hab
-    obtain ⟨rest, hr⟩ := mono _ w0 w' h
-    exact ⟨rest, by rw [hr, hl0]; simp⟩
-  | trap t => rw [hs] at h; simp at h
-  | ub k => rw [hs] at h; simp at h
-  | oof => rw [hs] at h; simp at h
+    simp only [hs, Out.bind_val] at h
+    rw [rows _ w0 w' h, (MW.store_val hs).2, hsz]
+    simp
+  | trap t => simp [hs] at h
+  | ub k => simp [hs] at h
+  | oof => simp [hs] at h
+
+/-- … and every one of these stores lies inside the struct `[p, p + size)`: nothing outside the
+    filestat is written (before /repo 42e944c the unstable ABI zeroed 64 bytes for its 56-byte
+    struct) -/
+theorem filestat_writes_within_struct (abi : Abi) (w w' : MW) (p : Nat) (st : Stat)
+    (h : storeFilestat abi w p st = .val w') :
+    ∃ news, w'.log = w.log ++ news ∧
+      ∀ e ∈ news, p ≤ e.1 ∧ e.1 + e.2.length ≤ p + (specFilestat abi).1 := by
+  refine ⟨_, filestat_stores abi w w' p st h, ?_⟩
+  intro e he
+  simp only [List.mem_cons, List.mem_map] at he
+  rcases he with he | ⟨r, hr, he⟩
+  · subst he; simp
+  · subst he
+    simp only [leBytes_length]
+    have : ∀ r ∈ (filestatLayout abi).2, r.2.1 + r.2.2.1 ≤ (specFilestat abi).1 := by
+      cases abi <;> decide
+    have := this r hr
+    omega
 
 /-! ## errno -/
 
@@ -366,9 +384,10 @@ theorem fdio_refines_posix_partial (abi : Abi) (s : St State) (n iovs cnt off re
 
     `GoodRun` collects the side conditions, checked at each state the history passes through:
     a positional call addresses a regular file with an offset < 2^63 within the file system's
-    largest offset and ≤ IOV_MAX segments; fd_filestat_get uses the preview1 ABI.  Outside them
-    the code deviates from POSIX — see `positional_beyond_fs_limit_counterexample` and
-    `filestat_unstable_overwrite_counterexample`. -/
+    largest offset and ≤ IOV_MAX segments (and the fd_seek offset argument is a 64-bit value).
+    Beyond the file system's largest offset the lseek emulation deviates from pread/pwrite —
+    `positional_beyond_fs_limit_counterexample`, recorded as the open finding
+    `positional-offset-beyond-s_maxbytes`. -/
 theorem fdio_refines_posix (hist : List (Abi × Call)) (s : St State) (hg : GoodRun s hist) :
     run Cfg.ofGen posixHost s hist = runImage s hist :=
   run_eq_runImage hist s hg
